@@ -57,6 +57,30 @@ def surface_dict_keys(env):
         msgs = [str(x.message) for x in w]
         env.holds("C20", "check_surface_dict_keys warns about exactly the unknown keys %s" % sorted(extra),
                   len(msgs) == len(extra) and all(any("`%s`" % k in m for m in msgs) for k in extra), str(msgs))
+    # every documented key with a suffix, a prefix or a capital is an unknown key of its own (exhaustive over the documented
+    # keys: the list is read from the checker's source)
+    import ast
+    import inspect
+    import openaerostruct.utils.check_surface_dict as CS
+    documented = sorted({n.value for n in ast.walk(ast.parse(inspect.getsource(CS))) if isinstance(n, ast.Constant) and isinstance(n.value, str)
+                         and n.value.isidentifier() and len(n.value) < 40})
+    with warnings.catch_warnings(record=True) as w0:
+        warnings.simplefilter("always")
+        check_surface_dict_keys({k: 1 for k in documented})
+    known = [k for k in documented if not any("`%s`" % k in str(x.message) for x in w0)]
+    env.holds("C20", "the documented surface keys were found in the checker's source", len(known) > 40, "%d keys" % len(known))
+    silent = []
+    for k in known:
+        for variant in (k + "_x", k + "2", "my_" + k, k.upper() if k.upper() != k else k + "X"):
+            if variant in known:
+                continue
+            with warnings.catch_warnings(record=True) as w:
+                warnings.simplefilter("always")
+                check_surface_dict_keys(dict(good, **{variant: 1.0}))
+            if not any("`%s`" % variant in str(x.message) for x in w):
+                silent.append(variant)
+    env.holds("C20", "every near-miss of a documented key (suffix, prefix, other case) produces a warning naming it",
+              not silent, "accepted silently: %s" % silent[:8])
 
 
 @job("c20.model_types", ("C20",))
